@@ -65,7 +65,7 @@ Conf_All == ConfAll(BehId)
 Inv_C01 == C01
 Inv_C02 == C02
 Inv_C03 == C03
-Inv_C04 == C04
+Inv_C04 == C04 /\ C04_Cli
 Inv_C05 == C05
 Inv_C06 == C06
 Inv_C07 == C07
@@ -77,7 +77,7 @@ Inv_C12 == C12
 Inv_C13 == C13
 Inv_C14 == C14
 Inv_C15 == C15
-Inv_C16 == C16
+Inv_C16 == C16 /\ C16_CR
 Inv_C17 == C17
 Inv_C18 == C18 /\ C18_Cli
 Inv_C19 == /\ C19_Idem
